@@ -57,6 +57,32 @@ def sig_params(name, two_d=False):
     return inspect.signature(getattr(Baseline2D if two_d else Baseline, name)).parameters
 
 
+_TABLE = {}
+
+
+def sort_keys_of(name, two_d):
+    """sort_keys of a registered method, read from the decorators of the CURRENT source by the translator."""
+    if not _TABLE:
+        import os
+        import sys
+        from .common import REPO, VERIF
+        tools = os.path.join(VERIF, 'tools')
+        if tools not in sys.path:
+            sys.path.insert(0, tools)
+        import gen_orderflow
+        _TABLE.update(gen_orderflow.method_table(REPO))
+    return tuple(_TABLE.get(('2d' if two_d else '1d', name), ((), False))[0])
+
+
+def take_leading(a, perm, two_d):
+    """gather along the leading axis (1-D) / the two leading axes (2-D), whatever follows."""
+    a = np.asarray(a)
+    if not two_d:
+        return a[perm]
+    px, pz = perm
+    return a[px[:, None], pz[None, :]]
+
+
 def take(a, perm, two_d):
     """a in sorted order -> the same per-point array in the supplied (permuted) order."""
     a = np.asarray(a)
@@ -93,7 +119,7 @@ def close(a, b, rtol=1e-10):
     return False, 'max abs difference %.3g (scale %.3g)' % (err, scale)
 
 
-def compare(ref, got, perm, shape, two_d, method, path='', out=None, stats=None):
+def compare(ref, got, perm, shape, two_d, method, path='', out=None, stats=None, skeys=()):
     """ref: result on sorted inputs; got: result on permuted inputs.  Collects (path, message)."""
     out = [] if out is None else out
     if method == 'individual_axes' and path in ('/params/params_rows', '/params/params_columns') \
@@ -122,14 +148,14 @@ def compare(ref, got, perm, shape, two_d, method, path='', out=None, stats=None)
             out.append((path, 'params keys differ: %s' % sorted(set(ref) ^ set(got if isinstance(got, dict) else ()))))
             return out
         for k in ref:
-            compare(ref[k], got[k], perm, shape, two_d, method, path + '/' + str(k), out, stats)
+            compare(ref[k], got[k], perm, shape, two_d, method, path + '/' + str(k), out, stats, skeys)
         return out
     if isinstance(ref, (list, tuple)) and not (len(ref) and np.isscalar(ref[0])):
         if not isinstance(got, (list, tuple)) or len(ref) != len(got):
             out.append((path, 'length differs'))
             return out
         for i, (u, v) in enumerate(zip(ref, got)):
-            compare(u, v, perm, shape, two_d, method, path + '[%d]' % i, out, stats)
+            compare(u, v, perm, shape, two_d, method, path + '[%d]' % i, out, stats, skeys)
         return out
     if ref is None or got is None:
         if ref is not got:
@@ -142,7 +168,14 @@ def compare(ref, got, perm, shape, two_d, method, path='', out=None, stats=None)
         is_pp = False
     if a.dtype == object:
         return out
-    exp = take(a, perm, two_d) if is_pp else a
+    lead = (path.count('/') == 2 and path.startswith('/params/') and key in skeys and a.ndim >= len(shape)
+            and tuple(a.shape[:len(shape)]) == tuple(shape) and method not in XFIT_ORDER_METHODS)
+    if lead:
+        # listed in the method's sort_keys: per-point along the LEADING axis/axes whatever the trailing shape
+        is_pp = True
+        exp = take_leading(a, perm, two_d)
+    else:
+        exp = take(a, perm, two_d) if is_pp else a
     ok, info = close(exp, got, RTOL[bool(two_d)])
     if stats is not None:
         stats['leaves'] = stats.get('leaves', 0) + 1
@@ -159,6 +192,11 @@ def compare(ref, got, perm, shape, two_d, method, path='', out=None, stats=None)
 
 
 # ------------------------------------------------------------------------------------------------ variants
+def output_flags(pars):
+    """every optional OUTPUT switch of the signature (return_coef, return_dof, ...), switched on"""
+    return {k: True for k, v in pars.items() if k.startswith('return_') and v.default is False}
+
+
 def variants_1d(name, wseed, n, budget, rng=None):
     """[(label, class, kwargs-builder)] ; builder(perm or None) -> extra kwargs (per-point ones permuted)."""
     pars = sig_params(name)
@@ -166,6 +204,11 @@ def variants_1d(name, wseed, n, budget, rng=None):
     w = r.uniform(0.05, 1.0, n)
     al = r.uniform(0.2, 1.0, n)
     out = [('default', 'default', lambda p: {})]
+    flags = output_flags(pars)
+    if flags:
+        out.append(('outputs:' + ','.join(sorted(flags)), 'outputs', lambda p: dict(flags)))
+        if 'weights' in pars and name != 'collab_pls':
+            out.append(('outputs+weights', 'outputs', lambda p: dict(flags, weights=w if p is None else w[p])))
     iters = []
     if 'max_iter' in pars:
         iters = [{'max_iter': 0}, {'max_iter': 1}]
@@ -233,8 +276,8 @@ def variants_1d(name, wseed, n, budget, rng=None):
         out.append(('lam smoothing', 'default',
                     lambda p: {'method': 'modpoly', 'regions': ((0, 10), (30, n)), 'sampling': (2, 4), 'lam': 10.0}))
     if budget <= 1 and len(out) > 14 and rng is not None:
-        keep = out[:4]
-        rest = out[4:]
+        keep = out[:6]
+        rest = out[6:]
         rng.shuffle(rest)
         out = keep + rest[:10]
     return out
@@ -246,6 +289,12 @@ def variants_2d(name, wseed, shape, budget):
     w = r.uniform(0.05, 1.0, shape)
     al = r.uniform(0.2, 1.0, shape)
     out = [('default', 'default', lambda p: {})]
+    flags = output_flags(pars)
+    if flags:
+        out.append(('outputs:' + ','.join(sorted(flags)), 'outputs', lambda p: dict(flags)))
+        if 'weights' in pars and name != 'collab_pls':
+            out.append(('outputs+weights', 'outputs',
+                        lambda p: dict(flags, weights=w if p is None else take(w, p, True))))
     iters = []
     if 'max_iter' in pars:
         iters = [{'max_iter': 0}, {'max_iter': 1}]
@@ -361,14 +410,16 @@ def run_pair_2d(name, x, z, y, perm, build, with_logs=False):
     return res
 
 
-def judge(ref, got, perm, shape, two_d, name, stats=None):
+def judge(ref, got, perm, shape, two_d, name, stats=None, skeys=None):
     """None when the property holds on this input, else a description."""
     if isinstance(ref, str) or isinstance(got, str):
         if isinstance(ref, str) and isinstance(got, str):
             return None if ref == got else 'sorted input %s but permuted input %s' % (ref, got)
         return 'sorted input %s but permuted input %s' % (
             ref if isinstance(ref, str) else 'returns', got if isinstance(got, str) else 'returns')
-    diffs = compare(ref, got, perm, shape, two_d, name, stats=stats)
+    if skeys is None:
+        skeys = sort_keys_of(name, two_d)
+    diffs = compare(ref, got, perm, shape, two_d, name, stats=stats, skeys=skeys)
     if diffs:
         return '; '.join('%s: %s' % d for d in diffs[:3])
     return None
@@ -584,14 +635,18 @@ def make_probe():
     from pybaselines._algorithm_setup import _Algorithm
 
     class Probe(_Algorithm):
-        @_Algorithm._register(sort_keys=('weights', 'pos'))
-        def echo(self, data, weights=None, use_whittaker=False):
+        @_Algorithm._register(sort_keys=('weights', 'pos', 'rows', 'opt'))
+        def echo(self, data, weights=None, use_whittaker=False, with_opt=False):
             if use_whittaker:
                 y, w, _ = self._setup_whittaker(data, 1, 2, weights)
             else:
                 y, w = self._setup_polynomial(data, weights)
             k = np.arange(len(y))
-            return y + 1000 * k + 7 * self.x, {'weights': 3 * w + 100 * k, 'pos': 2 * self.x + k, 'n': len(y)}
+            prm = {'weights': 3 * w + 100 * k, 'pos': 2 * self.x + k, 'n': len(y),
+                   'rows': np.stack([10 * k + 1, self.x + y], axis=1)}     # shape (N, 2), listed in sort_keys
+            if with_opt:                                                   # a conditionally output sort_keys entry
+                prm['opt'] = np.stack([k, k * k, y], axis=1)               # shape (N, 3)
+            return y + 1000 * k + 7 * self.x, prm
     return Probe
 
 
@@ -642,33 +697,43 @@ Eval vm_compute in (bad ok cases).
         y = [rng.randint(-9, 9) for _ in range(n)]
         w = [rng.randint(1, 5) for _ in range(n)] if rng.random() < 0.6 else None
         uw = n >= 4 and rng.random() < 0.5
+        wo = rng.random() < 0.5
         with warnings.catch_warnings():
             warnings.simplefilter('ignore')
             b, p = Probe(np.array(x, dtype=float)).echo(np.array(y, dtype=float),
                                                         weights=None if w is None else np.array(w, dtype=float),
-                                                        use_whittaker=uw)
-        arrs = [b, p['weights'], p['pos']]
-        if not all(np.all(a == np.round(a)) for a in arrs):
+                                                        use_whittaker=uw, with_opt=wo)
+        if ('opt' in p) != wo:
+            ctx.broke('correspondence:wrapper', 'optional sort_keys entry appeared/disappeared')
+            continue
+        ents = [np.asarray(p[k]).reshape(n, -1) for k in ('weights', 'pos', 'rows', 'opt') if k in p]
+        if not all(np.all(a == np.round(a)) for a in [b] + ents):
             ctx.broke('correspondence:wrapper', 'non-integer probe output')
             continue
-        lits.append('(%s, %s, %s, %s)' % (zlist(x), zlist(y), 'None' if w is None else '(Some %s)' % zlist(w),
-                                          zlist2([[int(v) for v in a] for a in arrs])))
+        lits.append('(%s, %s, %s, %s, %s, [%s])' % (zlist(x), zlist(y), 'None' if w is None else '(Some %s)' % zlist(w),
+                                                    'true' if wo else 'false', zlist(int_rows(b)),
+                                                    '; '.join(zlist2(int_rows(e)) for e in ents)))
         ctx.case(('wr', tuple(x), tuple(y), None if w is None else tuple(w)), nontrivial=x != sorted(x),
                  kind='corr:wrapper')
     text = HEADER + """
-Definition probe_body (xs ys : list Z) (ws : option (list Z)) : list Z * list (list Z) :=
+Fixpoint zlll_eqb (a b : list (list (list Z))) : bool :=
+  match a, b with [], [] => true | u :: a', v :: b' => zll_eqb u v && zlll_eqb a' b' | _, _ => false end.
+(* sort_keys entries as lists of ROWS: shape (N,) = rows of one number, (N,2), (N,3); 'opt' only when requested *)
+Definition probe_body (opt : bool) (xs ys : list Z) (ws : option (list Z)) : list Z * list (list (list Z)) :=
   let n := length xs in
   let w := match ws with Some w => w | None => repeat 1 n end in
   (map (fun k => nth k ys 0 + 1000 * Z.of_nat k + 7 * nth k xs 0) (seq 0 n),
-   [map (fun k => 3 * nth k w 0 + 100 * Z.of_nat k) (seq 0 n);
-    map (fun k => 2 * nth k xs 0 + Z.of_nat k) (seq 0 n)]).
-Definition cases : list (list Z * list Z * option (list Z) * list (list Z)) := [
+   [map (fun k => [3 * nth k w 0 + 100 * Z.of_nat k]) (seq 0 n);
+    map (fun k => [2 * nth k xs 0 + Z.of_nat k]) (seq 0 n);
+    map (fun k => [10 * Z.of_nat k + 1; nth k xs 0 + nth k ys 0]) (seq 0 n)]
+   ++ (if opt then [map (fun k => [Z.of_nat k; Z.of_nat k * Z.of_nat k; nth k ys 0]) (seq 0 n)] else [])).
+Definition cases : list (list Z * list Z * option (list Z) * bool * list Z * list (list (list Z))) := [
 %s
 ].
-Definition ok (c : list Z * list Z * option (list Z) * list (list Z)) : bool :=
-  let '(x, y, w, e) := c in
-  let r := wrapper Z 0 probe_body x y w in
-  zll_eqb (fst r :: snd r) e.
+Definition ok (c : list Z * list Z * option (list Z) * bool * list Z * list (list (list Z))) : bool :=
+  let '(x, y, w, opt, eb, ee) := c in
+  let r := wrapperG Z (list Z) 0 [] (probe_body opt) x y w in
+  zl_eqb (fst r) eb && zlll_eqb (snd r) ee.
 Eval vm_compute in (bad ok cases).
 """ % ';\n'.join('  ' + l for l in lits)
     vals = ctx.coq_eval('wrapper', text)
@@ -838,15 +903,17 @@ def make_probe2d():
     from pybaselines.two_d._algorithm_setup import _Algorithm2D
 
     class Probe2D(_Algorithm2D):
-        @_Algorithm2D._register(sort_keys=('weights',))
-        def echo(self, data, weights=None):
+        @_Algorithm2D._register(sort_keys=('weights', 'stack'))
+        def echo(self, data, weights=None, with_stack=True):
             y, w = self._setup_polynomial(data, weights)
             y = y.reshape(self._shape)
             w = w.reshape(self._shape)
             i = np.arange(self._shape[0])[:, None]
             j = np.arange(self._shape[1])[None, :]
-            return (y + 1000 * i + 100 * j + 7 * self.x[:, None] + 3 * self.z[None, :],
-                    {'weights': 3 * w + 100 * i + 10 * j})
+            prm = {'weights': 3 * w + 100 * i + 10 * j}
+            if with_stack:
+                prm['stack'] = np.stack([y + i, 10 * i + j + 0 * y], axis=2)      # shape (M, N, 2) in sort_keys
+            return y + 1000 * i + 100 * j + 7 * self.x[:, None] + 3 * self.z[None, :], prm
     return Probe2D
 
 
@@ -1051,22 +1118,35 @@ Definition ok (c : list Z * list Z * list (list Z) * list bool * list (list Z) *
         w = [[rng.randint(1, 5) for _ in range(n)] for _ in range(m)] if rng.random() < 0.6 else None
         with warnings.catch_warnings():
             warnings.simplefilter('ignore')
+            # in the z-only layout (..., z_order) the code indexes the LAST axis, so an (M, N, k) entry is only
+            # supported (and modelled) when x needs sorting or nothing does; no registered method has such an entry
+            ws_ = not (x == sorted(x) and z != sorted(z))
             b, prm = P2(np.array(x, dtype=float), np.array(z, dtype=float)).echo(
-                np.array(y, dtype=float), weights=None if w is None else np.array(w, dtype=float))
-        lits.append('(%s, %s, %s, %s, %s, %s)' % (zlist(x), zlist(z), zlist2(y),
-                                                  'None' if w is None else '(Some %s)' % zlist2(w),
-                                                  zlist2(int_rows(b)), zlist2(int_rows(prm['weights']))))
+                np.array(y, dtype=float), weights=None if w is None else np.array(w, dtype=float), with_stack=ws_)
+        st = int_rows(prm['stack']) if ws_ else []
+        lits.append('(%s, %s, %s, %s, %s, %s, %s, %s, %s)' % (
+            zlist(x), zlist(z), zlist2(y), 'None' if w is None else '(Some %s)' % zlist2(w), 'true' if ws_ else 'false',
+            zlist2(int_rows(b)), zlist2(int_rows(prm['weights'])),
+            zlist2([[c[0] for c in row] for row in st]), zlist2([[c[1] for c in row] for row in st])))
         ctx.case(('wr2', tuple(x), tuple(z)), nontrivial=x != sorted(x) or z != sorted(z), kind='corr:wrapper2d')
     eval_cases(ctx, 'wrapper2', 'correspondence:wrapper2(_Algorithm2D._register.inner,_setup_*,_return_results)', HEADER2,
-               'list Z * list Z * list (list Z) * option (list (list Z)) * list (list Z) * list (list Z)', lits, """
-Definition body2 (xs zs : list Z) (ys : list (list Z)) (ws : option (list (list Z))) :=
+               'list Z * list Z * list (list Z) * option (list (list Z)) * bool * list (list Z) * list (list Z) * list (list Z) * list (list Z)', lits, """
+(* entries as M x N arrays of ROWS: 'weights' (M,N) = rows of one number, 'stack' (M,N,2) *)
+Definition body2 (st : bool) (xs zs : list Z) (ys : list (list Z)) (ws : option (list (list Z))) :=
   let n := length xs in let m := length zs in
   (tab2 Z n m (fun i j => nth2 Z 0 ys i j + 1000 * Z.of_nat i + 100 * Z.of_nat j + 7 * nth i xs 0 + 3 * nth j zs 0),
-   [tab2 Z n m (fun i j => 3 * (match ws with Some w => nth2 Z 0 w i j | None => 1 end) + 100 * Z.of_nat i + 10 * Z.of_nat j)]).
-Definition ok (c : list Z * list Z * list (list Z) * option (list (list Z)) * list (list Z) * list (list Z)) : bool :=
-  let '(x, z, y, w, eb, ew) := c in
-  let r := wrapper2 Z 0 body2 x z y w in
-  zll_eqb (fst r) eb && zlll_eqb' (snd r) [ew].""".replace("zlll_eqb'", '(fun a b => match a, b with [u], [v] => zll_eqb u v | _, _ => false end)'),
+   [tab2 (list Z) n m (fun i j => [3 * (match ws with Some w => nth2 Z 0 w i j | None => 1 end) + 100 * Z.of_nat i + 10 * Z.of_nat j])]
+   ++ (if st then [tab2 (list Z) n m (fun i j => [nth2 Z 0 ys i j + Z.of_nat i; 10 * Z.of_nat i + Z.of_nat j])] else [])).
+Definition comp (k : nat) (a : list (list (list Z))) : list (list Z) := map (map (fun r => nth k r 0)) a.
+Definition ok (c : list Z * list Z * list (list Z) * option (list (list Z)) * bool * list (list Z) * list (list Z) * list (list Z) * list (list Z)) : bool :=
+  let '(x, z, y, w, st, eb, ew, es0, es1) := c in
+  let r := wrapper2G Z (list Z) 0 [] (body2 st) x z y w in
+  zll_eqb (fst r) eb &&
+  match snd r with
+  | [rw; rs] => st && zll_eqb (comp 0 rw) ew && zll_eqb (comp 0 rs) es0 && zll_eqb (comp 1 rs) es1
+  | [rw] => negb st && zll_eqb (comp 0 rw) ew
+  | _ => false
+  end.""",
                '2-D wrapper model and the real _Algorithm2D._register wrapper disagree')
 
 
